@@ -201,6 +201,73 @@ def extra_unknown_frames(SceneGraph):
     return fails
 
 
+def trace_repo_tests(tier, V, cov):
+    """code -> spec: the repository's own scene-graph tests run under the recorder; TLC names the
+    term every recorded get must equal, numpy evaluates it."""
+    import subprocess
+    from harness.common import VERIF, repo_dir
+    d = tlc.prepare("c09/trace")
+    trace = os.path.join(d, "trace.ndjson")
+    env = dict(os.environ)
+    env.update({"TRIMESH_VERIF": "1", "TRIMESH_VERIF_TRACE": trace,
+                "PYTHONPATH": os.path.join(VERIF, "harness") + ":" + repo_dir() + ":" + env.get("PYTHONPATH", "")})
+    if tier == "thorough":
+        # the repository's own scene-graph tests under the recorder
+        tests = ["tests/test_scenegraph.py", "tests/test_scene.py"]
+        cmd = [sys.executable, "-W", "ignore", "-m", "pytest", "-p", "no:cacheprovider", "-p", "verif_recorder", "-q", "-x",
+               "--rootdir", repo_dir()] + [os.path.join(repo_dir(), t) for t in tests]
+        p = subprocess.run(cmd, cwd=d, env=env, capture_output=True, text=True, timeout=1500)
+        cov["repo_tests_under_recorder"] = {"files": tests, "pytest_rc": p.returncode, "tail": p.stdout.strip().splitlines()[-1:]}
+    else:
+        # a random driver with arbitrary float matrices (rotations about random axes, scales, translations)
+        cmd = [sys.executable, "-W", "ignore", os.path.join(VERIF, "harness", "sg_driver.py"), str(seed()), "150", "40"]
+        p = subprocess.run(cmd, cwd=d, env=env, capture_output=True, text=True, timeout=600)
+        cov["driver_under_recorder"] = {"graphs": 150, "steps": 40, "rc": p.returncode}
+        if p.returncode != 0:
+            raise MachineryError("driver failed: " + p.stderr[-600:])
+    if not os.path.exists(trace):
+        raise MachineryError("recorder produced no trace: " + p.stdout[-500:] + p.stderr[-500:])
+    events, mats = [], None
+    for line in open(trace):
+        ev = json.loads(line)
+        if ev["ev"] == "tokens":
+            mats = ev["mats"]
+        else:
+            events.append(ev)
+    if mats is None or len(events) < 20:
+        raise MachineryError("trace too short (%d events)" % len(events))
+    cases = []
+    for k, ev in enumerate(events):
+        cases.append({"id": k, "a": ev["a"], "b": ev["b"], "parents": ev["parents"]})
+    with open(os.path.join(d, "cases.ndjson"), "w") as f:
+        for c in cases:
+            f.write(json.dumps(c) + "\n")
+    r = tlc.must(tlc.run(d, "TraceSceneGraph", "INIT Init\nNEXT Next\nINVARIANT Tell\nINVARIANT Acyclic\nCHECK_DEADLOCK FALSE\n", workers=1, timeout=900), "trace")
+    if len(r.printed) < len(cases):
+        raise MachineryError("TLC judged %d of %d recorded gets" % (len(r.printed), len(cases)))
+    token = {"I": np.eye(4)}
+    for k, M in enumerate(mats):
+        token["m%d" % k] = np.array(M)
+    nconn = 0
+    for out in r.printed:
+        ev = events[out["id"]]
+        if not out["conn"]:
+            continue
+        nconn += 1
+        want = np.eye(4)
+        for item in out["term"]:
+            M = token[ev["edges"].get(item["n"], "I")]
+            want = want @ (np.linalg.inv(M) if item["inv"] else M)
+        got = ev.get("res")
+        scale = max(1.0, float(np.abs(want).max()))
+        if ev["exc"] or got is None or not np.allclose(np.array(got), want, rtol=0, atol=1e-6 * scale):
+            V.violation("GetIsPathProduct(recorded repo test)", {"a": ev["a"], "b": ev["b"], "parents": ev["parents"], "term": out["term"],
+                                                                  "exc": ev["exc"], "got": got, "want": want.tolist()})
+    cov["recorded_gets_judged"] = len(cases)
+    cov["recorded_gets_connected"] = nconn
+    return r.distinct, len(cases)
+
+
 def main(argv):
     tier = tier_from_args(argv)
     V = Verdict(PROP, tier)
@@ -273,9 +340,12 @@ def main(argv):
             V.violation(f["fail"]["clause"], f)
     for f in extra_unknown_frames(SceneGraph):
         V.violation(f["clause"], f)
+    st_tr, n_rec = trace_repo_tests(tier, V, cov)
+    states += st_tr
+    trans += st_tr
     cov.update({
         "states": states, "transitions": trans,
-        "traces_validated_against_impl": n_beh,
+        "traces_validated_against_impl": n_beh + n_rec,
         "gets_compared": n_get,
         "behaviours": {"state_cover": n_cover, "all_histories_depth3": n_leaf, "simulated": n_sim},
         "exhaustive": True,
